@@ -17,7 +17,7 @@ CHECKS = {
             "Texts built from corpus dates of the requested language, filler and mutated punctuation, for every language explicitly, multi-language and autodetect: no exception, None or non-empty list, tuple arity, non-blank in-text substrings in text order, datetime values, language element among the requested.",
             "Valid language codes only; frozen clock.", "DESIGN.md §4 C17"),
     "C20": ("exploration", "harness-owned thread schedules (sys.settrace preemption of A at its k-th library line, B to completion) enumerated over distinct lines and drawn by Hypothesis; oracle = results of the same calls alone",
-            "30 call pairs (incl. error-path calls, same-locale multi-token pairs, small-CACHE_SIZE_LIMIT pairs and a calendar/parse pair) x 2 directions x {warm, cold start} x preemption at the first occurrence of every distinct (file, line, calling context) the preempted call executes + random k; every schedule in a forked child from a per-pair zygote; lock-holding callback points are detected and counted as infeasible. Six recorded findings (three root causes: shared Settings, shared Locale dictionary, search RELATIVE_BASE; no locking), each keyed by pair, direction, side and wrong outcome.",
+            "32 call pairs (incl. error-path calls, same-locale multi-token pairs, small-CACHE_SIZE_LIMIT pairs, plain default-parser pairs and a calendar/parse pair) x 2 directions x {warm, cold start} x preemption at the first occurrence of every distinct (file, line, calling context) the preempted call executes + random k; every schedule in a forked child from a per-pair zygote; lock-holding callback points are detected and counted as infeasible. Six recorded findings (three root causes: shared Settings, shared Locale dictionary, search RELATIVE_BASE; no locking), each keyed by pair, direction, side and wrong outcome.",
             "One preemption, run-to-completion schedules only (the property's own quantifier); real threads, deterministic given k.", "DESIGN.md §4 C20"),
     "C04": ("exploration", "property-based testing (Hypothesis) against an independent calendar-arithmetic oracle; thorough adds an exhaustive units x n x direction x base grid",
             "Generated phrases (1-3 units, counts 0..5000, decimals, fixed words, clock times, RETURN_TIME_AS_PERIOD) over boundary-biased bases given as RELATIVE_BASE or frozen clock, compared with integer month arithmetic + exact timedelta written in the harness (no relativedelta); implicit-now stage against pytz for TIMEZONE/TO_TIMEZONE pairs.",
